@@ -91,7 +91,11 @@ impl State {
             // If the counter is already idle, and no updates were made since the last time the counter was flushed,
             // then we've already emitted our zero value and no longer need to emit updates until the counter is active
             // again.
-            if points_flushed == 0 {
+            //
+            // An increment racing with this flush can land its value before our read of the counter but bump the
+            // update count after we reset it, which shows up as a non-zero delta with zero updates: that delta has
+            // already been consumed from the counter, so it must be sent, not skipped as idle.
+            if points_flushed == 0 && value == 0 {
                 if flush_state.is_counter_idle(&key) {
                     continue;
                 }
